@@ -11,13 +11,6 @@ use tensor_store::{
     SnapshotHeader, SnapshotVersion, SparseVector, TensorData, TensorStore, TensorValue, V3Snapshot,
 };
 
-/// `--variant fixed`: /repo has proposed/C07-compressed-bytes.diff and
-/// C07-snapshot-exactness-and-atomicity.diff applied; the model's `…Fixed` functions are compared instead.
-static FIXED: std::sync::atomic::AtomicBool = std::sync::atomic::AtomicBool::new(false);
-fn fixed() -> bool {
-    FIXED.load(std::sync::atomic::Ordering::Relaxed)
-}
-
 // ------------------------------------------------------------------ encodings shared with the driver
 
 fn nats<T: ToString>(v: &[T]) -> String {
@@ -61,6 +54,7 @@ fn enc_cvalue(c: &CompressedValue) -> String {
         CompressedValue::Scalar(CompressedScalar::Int(i)) => format!("s.int:{i}"),
         CompressedValue::Scalar(CompressedScalar::Float(f)) => format!("s.float:{}", f.to_bits()),
         CompressedValue::Scalar(CompressedScalar::String(s)) => format!("s.str:{}", hexs(s)),
+        CompressedValue::Scalar(CompressedScalar::Bytes(b)) => format!("s.bytes:{}", hex(b)),
         CompressedValue::VectorRaw(v) => format!("raw:{}", nats(&bits32(v))),
         CompressedValue::VectorTT { .. } => "tt".into(),
         CompressedValue::VectorSparse { dimension, positions, values } => {
@@ -70,18 +64,6 @@ fn enc_cvalue(c: &CompressedValue) -> String {
         CompressedValue::RleInt(e) => format!("rle:{}:{}", nats(&e.values), nats(&e.run_lengths)),
         CompressedValue::Pointer(p) => format!("ptr:{}", hexs(p)),
         CompressedValue::Pointers(ps) => format!("ptrs:{}", strlist(ps)),
-        #[allow(unreachable_patterns)]
-        other => {
-            // a scalar variant this harness cannot name on the unpatched tree (`Bytes` after the fix)
-            let d = format!("{other:?}");
-            match d.strip_prefix("Scalar(Bytes([").and_then(|x| x.strip_suffix("]))")) {
-                Some(list) => {
-                    let b: Vec<u8> = list.split(',').filter_map(|x| x.trim().parse().ok()).collect();
-                    format!("s.bytes:{}", hex(&b))
-                }
-                None => "other".into(),
-            }
-        }
     }
 }
 
@@ -470,12 +452,14 @@ fn stream_names(rep: &mut Report, m: &mut Model, root: &Rng, scale: u64) {
         if name == "." || name.starts_with("..") || name.is_empty() {
             continue;
         }
-        // the save's temp path: derived by the code (observed through the trace in the crash stream); here
-        // the std function the unpatched code calls, or the patched rule
-        let real = if fixed() { format!("{name}.tmp") } else { Path::new(&name).with_extension("tmp").to_string_lossy().to_string() };
-        let model = m.ask(&format!("{} {}", if fixed() { "tmpnamef" } else { "tmpname" }, hexs(&name)));
+        // the save's temp path: the function both saves call (also observed through the trace in the crash stream)
+        let real = snapshot::temp_path_for(Path::new(&name)).to_string_lossy().to_string();
+        let model = m.ask(&format!("tmpname {}", hexs(&name)));
         rep.compare("tmpname", || json!({"name": name}), &hexs(&real), &model);
         rep.hit(if real == name { "tmpname.fixed_point" } else { "tmpname.distinct" });
+        if real == name {
+            rep.violation("tensor_store.snapshot.save/tmp_extension_path_overwritten_in_place", "temp_path_for(path) == path: the save would overwrite the snapshot in place", json!({"name": name}));
+        }
         rep.case("tmpname", Some(&name));
     }
 }
@@ -534,7 +518,7 @@ fn stream_emb(rep: &mut Report, m: &mut Model, root: &Rng, scale: u64) {
         let ttok = u8::from(fmt == "tensor_train");
         // `ttok` is the one opaque fact (did tt_decompose succeed); for len >= 256 dense vectors where TT
         // was not chosen the model is told so.
-        let model = m.ask(&format!("{} {} {}", if fixed() { "embf" } else { "emb" }, if len >= TT_MIN && fmt == "dense" { 0 } else { 1.max(ttok) }, nats(&ob)));
+        let model = m.ask(&format!("emb {} {}", if len >= TT_MIN && fmt == "dense" { 0 } else { 1.max(ttok) }, nats(&ob)));
         rep.compare("emb.form", || json!({"vector_bits": nats(&ob)}), &imp, &model);
         let ch = emb_change(&ob, &gb);
         rep.hit(&format!("emb.{fmt}.{}.{ch}", if len < TT_MIN { "short" } else { "long" }));
@@ -627,7 +611,7 @@ fn stream_values(rep: &mut Report, m: &mut Model, root: &Rng, scale: u64, sc: &m
         let cfg = qconfig(tt_dim, delta);
         let tt = cfg.tensor_mode.is_some();
         let orig = enc_value(&v);
-        let line = format!("{} {} {} {} {} {}", if fixed() { "cvalf" } else { "cval" }, u8::from(tt), u8::from(delta), hexs(&key), hexs(&field), orig);
+        let line = format!("cval {} {} {} {} {}", u8::from(tt), u8::from(delta), hexs(&key), hexs(&field), orig);
         let model = m.ask(&line);
         rep.hit(&format!("values.kind.{kind}"));
         rep.hit(&format!("values.key.{kc}"));
@@ -695,7 +679,7 @@ fn stream_values(rep: &mut Report, m: &mut Model, root: &Rng, scale: u64, sc: &m
     }
     // directed: the design-time witness
     let (c, t) = q_roundtrip(&path, "user:1", "blob", &TensorValue::Scalar(ScalarValue::Bytes(vec![1, 2, 3])), &CompressionConfig::default()).unwrap_or_default();
-    let model = m.ask(&format!("{} 0 0 {} {} bytes:010203", if fixed() { "cvalf" } else { "cval" }, hexs("user:1"), hexs("blob")));
+    let model = m.ask(&format!("cval 0 0 {} {} bytes:010203", hexs("user:1"), hexs("blob")));
     rep.compare("values.map", || json!({"directed":"bytes [1,2,3]"}), &format!("{c} => {t}"), &model);
     if t != "bytes:010203" {
         rep.violation("tensor_store.snapshot.compressed/bytes_become_placeholder", "Bytes([1,2,3]) read back from the quantising snapshot", json!({"stored":"bytes:010203","read_back":t,"compressed_as":c}));
@@ -704,7 +688,7 @@ fn stream_values(rep: &mut Report, m: &mut Model, root: &Rng, scale: u64, sc: &m
     let big = TensorValue::Vector(vec![1.0, 1e30]);
     let cfgd = qconfig(None, true);
     if let Ok((c, t)) = q_roundtrip(&path, "user:2", "weights", &big, &cfgd) {
-        let model = m.ask(&format!("{} 0 1 {} {} {}", if fixed() { "cvalf" } else { "cval" }, hexs("user:2"), hexs("weights"), enc_value(&big)));
+        let model = m.ask(&format!("cval 0 1 {} {} {}", hexs("user:2"), hexs("weights"), enc_value(&big)));
         rep.compare("values.map", || json!({"directed":"[1.0, 1e30] in a field called weights"}), &format!("{c} => {t}"), &model);
         if t != enc_value(&big) {
             rep.violation("tensor_store.snapshot.compressed/id_list_vector_not_bit_identical", "a non-decreasing vector of integral floats beyond u64 is stored as an id list and saturates", json!({"key":"user:2","field":"weights","stored": enc_value(&big), "compressed_as": c, "read_back": t, "config": {"delta": true}}));
@@ -726,7 +710,21 @@ fn stream_c2t(rep: &mut Report, m: &mut Model, root: &Rng, scale: u64, sc: &mut 
     let mut r = root.fork("c2t");
     let path = sc.fresh("c.bin");
     for _ in 0..250 * scale {
-        let (cv, tag): (CompressedValue, &str) = match r.below(5) {
+        let (cv, tag): (CompressedValue, &str) = match r.below(6) {
+            5 => {
+                let sc = match r.below(6) {
+                    0 => CompressedScalar::Null,
+                    1 => CompressedScalar::Bool(r.chance(1, 2)),
+                    2 => CompressedScalar::Int(r.next_u64() as i64),
+                    3 => CompressedScalar::Float(f64::from_bits(r.next_u64())),
+                    4 => CompressedScalar::String(gen_string(&mut r)),
+                    _ => {
+                        let n = *r.pick(&[0usize, 1, 3, 40]);
+                        CompressedScalar::Bytes(r.bytes(n))
+                    }
+                };
+                (CompressedValue::Scalar(sc), "scalar")
+            }
             0 => {
                 let n = r.below(6) as usize;
                 let vals: Vec<i64> = (0..n).map(|_| *r.pick(&[0i64, 1, -1, 7, 16_777_217, -16_777_219, i64::MAX, i64::MIN, 1 << 40])).collect();
@@ -1225,6 +1223,164 @@ fn stream_stores(rep: &mut Report, m: &mut Model, root: &Rng, thorough: bool, sc
     }
 }
 
+// ------------------------------------------------------------------ stream: directed reproductions (run first)
+
+/// Minimal hand-built stores for the defects that are still in the code (known findings) and for the
+/// ones that were fixed (regression cases). Independent of the seed.
+fn stream_directed(rep: &mut Report, m: &mut Model, sc: &mut Scratch) {
+    let mut seen = Seen(BTreeMap::new());
+    // --- one table with one row, one blob chunk, one graph edge, one plain key
+    let store = TensorStore::new();
+    let mut side = Side::default();
+    {
+        use relational_engine::{Column, ColumnType, RelationalEngine, Schema, Value};
+        let rel = RelationalEngine::with_store(store.clone());
+        let _ = rel.create_table("t", Schema::new(vec![Column::new("id", ColumnType::Int)]));
+        let mut row = HashMap::new();
+        row.insert("id".to_string(), Value::Int(7));
+        let _ = rel.insert("t", row);
+        let rt = store.router();
+        side.blob_hashes.push(rt.blobs.append(b"one chunk of blob data"));
+        rt.graph.add_edge(EntityId::new(1), EntityId::new(2), "links", true);
+        side.graph_nodes = vec![1, 2];
+        let mut d = TensorData::new();
+        d.set("a", TensorValue::Scalar(ScalarValue::Int(1)));
+        store.put("user:1", d).unwrap();
+    }
+    let desc = json!({"directed": "one table t(id) with one row, one blob chunk, one graph-tensor edge 1->2, key user:1"});
+    let before = view(store.router(), &side);
+    // quantising format
+    let p = sc.fresh("directed.q");
+    match store.save_snapshot_compressed(&p, CompressionConfig::default()).map_err(|e| e.to_string()).and_then(|()| TensorStore::load_snapshot_compressed(&p).map_err(|e| e.to_string())) {
+        Err(e) => seen.violation(rep, "tensor_store.snapshot.compressed/save_or_load_failed", &e, desc.clone()),
+        Ok(l) => {
+            let after = view(l.router(), &side);
+            if before.tables != after.tables {
+                seen.violation(rep, "tensor_store.snapshot.compressed/relational_slab_not_restored", "tables/rows/schemas of the relational slab are absent after load_snapshot_compressed", json!({"store": desc, "saved_tables": before.tables.keys().collect::<Vec<_>>(), "loaded_tables": after.tables.keys().collect::<Vec<_>>()}));
+            }
+            if before.blobs != after.blobs {
+                seen.violation(rep, "tensor_store.snapshot.compressed/blob_log_not_restored", "blob log chunks are absent after load_snapshot_compressed", json!({"store": desc, "saved_chunks": before.blob_counts.0, "loaded_chunks": after.blob_counts.0}));
+            }
+            if before.graph != after.graph {
+                seen.violation(rep, "tensor_store.snapshot.compressed/graph_tensor_not_restored", "graph tensor edges are absent after load_snapshot_compressed", json!({"store": desc, "saved_edges": before.graph_edges, "loaded_edges": after.graph_edges}));
+            }
+            if keyview(l.router()) != keyview(store.router()) {
+                seen.violation(rep, "tensor_store.snapshot.compressed/key_set_not_restored", "keys or values differ after load_snapshot_compressed", desc.clone());
+            }
+        }
+    }
+    rep.case("directed", Some("quantising: table + blob + graph edge"));
+    // the three v3 formats keep all of it
+    check_roundtrip(rep, m, &mut seen, store.router(), &side, &desc, sc, "directed");
+    // bytes path of the store API
+    let restore_diff = |store: &TensorStore, side: &Side| -> Result<Vec<(String, J)>, String> {
+        let bytes = store.snapshot_bytes().map_err(|e| format!("snapshot_bytes: {e}"))?;
+        let fresh = TensorStore::new();
+        fresh.restore_from_bytes(&bytes).map_err(|e| format!("restore_from_bytes: {e}"))?;
+        // entity ids are re-assigned by restore_from_bytes (it re-puts every key): compare by key
+        let mut a = view(store.router(), side);
+        let mut c = view(fresh.router(), side);
+        a.index.clear();
+        c.index.clear();
+        a.embeddings.clear();
+        c.embeddings.clear();
+        Ok(diff_views(&a, &c))
+    };
+    match restore_diff(&store, &side) {
+        Err(e) => seen.violation(rep, "tensor_store.restore_from_bytes/failed", &e, desc.clone()),
+        Ok(diffs) => {
+            for (kind, detail) in diffs {
+                seen.violation(rep, &class_for("tensor_store.restore_from_bytes", &kind), "restore_from_bytes(snapshot_bytes()) into a fresh store differs", json!({"store": desc, "difference": detail}));
+            }
+        }
+    }
+    rep.case("directed", Some("restore_from_bytes: table + blob + graph edge"));
+    // --- a dense pseudo-random 384-dim embedding: tensor-train form in every v3 snapshot
+    let mut r = Rng::new(0xC07).fork("directed");
+    let mut outside = false;
+    for attempt in 0..40 {
+        if outside && attempt >= 4 {
+            break;
+        }
+        let len = if attempt % 2 == 0 { 384 } else { 768 };
+        let v = gen_vec_kind(&mut r, len, 5);
+        let ce = CompressedEmbedding::from_dense(&v);
+        let back = ce.to_dense();
+        let (ob, gb) = (bits32(&v), bits32(&back));
+        let ch = emb_change(&ob, &gb);
+        rep.hit(&format!("directed.emb{len}.{}.{ch}", ce.format_name()));
+        let (cos, rel) = cosine_and_rel(&ob, &gb);
+        if ch == "outside_tol" && !outside {
+            outside = true;
+            seen.violation(rep, "tensor_store.embedding_slab.snapshot/long_vector_outside_tolerance", "CompressedEmbedding::from_dense(v).to_dense() differs from v", json!({"directed": "uniform pseudo-random dense vector, entries in [-2, 2]", "len": len, "attempt": attempt, "cosine": cos, "relative_l2_error": rel, "form": ce.format_name(), "vector_bits": nats(&ob).chars().take(400).collect::<String>()}));
+        }
+        // the same vector under an emb: key through restore_from_bytes: the exact metadata copy is
+        // overwritten by the reconstructed vector
+        if attempt == 0 {
+            let st = TensorStore::new();
+            let mut d = TensorData::new();
+            d.set("_embedding", TensorValue::Vector(v.clone()));
+            d.set("tag", TensorValue::Scalar(ScalarValue::Int(1)));
+            st.put("emb:d1", d).unwrap();
+            let edesc = json!({"directed": "key emb:d1 with a dense pseudo-random 384-dim _embedding and an int field"});
+            match restore_diff(&st, &Side::default()) {
+                Err(e) => seen.violation(rep, "tensor_store.restore_from_bytes/failed", &e, edesc.clone()),
+                Ok(diffs) => {
+                    for (kind, detail) in diffs {
+                        seen.violation(rep, &class_for("tensor_store.restore_from_bytes", &kind), "restore_from_bytes(snapshot_bytes()) into a fresh store differs", json!({"store": edesc, "difference": detail}));
+                    }
+                }
+            }
+            check_roundtrip(rep, m, &mut seen, st.router(), &Side::default(), &edesc, sc, "directed_emb");
+        }
+        rep.case("directed", Some(&format!("emb{len}|{attempt}")));
+    }
+    // --- regression inputs of the fixed defects, through the real save/load and the model
+    let path = sc.fresh("reg.q");
+    let cfgd = qconfig(None, true);
+    let regs: Vec<(&str, &str, TensorValue, &str)> = vec![
+        ("user:1", "blob", TensorValue::Scalar(ScalarValue::Bytes(vec![1, 2, 3])), "tensor_store.snapshot.compressed/bytes_become_placeholder"),
+        ("user:1", "blob", TensorValue::Scalar(ScalarValue::Bytes(vec![])), "tensor_store.snapshot.compressed/bytes_become_placeholder"),
+        ("user:1", "ids", TensorValue::Vector(vec![1.5]), "tensor_store.snapshot.compressed/id_list_vector_not_bit_identical"),
+        ("user:1", "member_ids", TensorValue::Vector(vec![3.0, -2.0, f32::INFINITY, f32::NAN]), "tensor_store.snapshot.compressed/id_list_vector_not_bit_identical"),
+        ("user:1", "ids", TensorValue::Vector(vec![9.0, 2.0, 2.0, 5.0]), "tensor_store.snapshot.compressed/id_list_vector_not_bit_identical"),
+        ("user:2", "weights", TensorValue::Vector(vec![1.0, 1e30]), "tensor_store.snapshot.compressed/id_list_vector_not_bit_identical"),
+        ("user:2", "weights", TensorValue::Vector(vec![1.0, 16_777_216.0, 16_777_218.0]), "tensor_store.snapshot.compressed/id_list_vector_not_bit_identical"),
+        ("user:3", "sv", TensorValue::Sparse(SparseVector::from_parts(8, vec![1, 6], vec![0.5, -2.0])), "tensor_store.snapshot.compressed/sparse_becomes_dense"),
+        ("user:3", "sv", TensorValue::Sparse(SparseVector::from_parts(3, vec![], vec![])), "tensor_store.snapshot.compressed/sparse_becomes_dense"),
+    ];
+    for (key, field, v, class) in regs {
+        let orig = enc_value(&v);
+        let line = format!("cval 0 1 {} {} {}", hexs(key), hexs(field), orig);
+        let model = m.ask(&line);
+        match q_roundtrip(&path, key, field, &v, &cfgd) {
+            Err(e) => seen.violation(rep, "tensor_store.snapshot.compressed/save_or_load_failed", &e, json!({"line": line})),
+            Ok((c, t)) => {
+                rep.compare("values.map", || json!({"directed": line}), &format!("{c} => {t}"), &model);
+                if t != orig {
+                    seen.violation(rep, class, "value read back from the quantising snapshot differs from the value stored", json!({"key": key, "field": field, "stored": orig, "compressed_as": c, "read_back": t}));
+                }
+            }
+        }
+        rep.case("directed", Some(&line));
+    }
+    for v in [vec![5e-7f32, 0.0, 0.0, 1.0], vec![f32::NAN, 0.0, 0.0, 0.0, -0.0, 1e-6]] {
+        let ce = CompressedEmbedding::from_dense(&v);
+        let (ob, gb) = (bits32(&v), bits32(&ce.to_dense()));
+        let imp = match &ce {
+            CompressedEmbedding::Dense(_) => format!("dense => {}", nats(&gb)),
+            CompressedEmbedding::Sparse { positions, .. } => format!("sparse {} => {}", nats(positions), nats(&gb)),
+            CompressedEmbedding::TensorTrain(_) => "tt => tt".to_string(),
+        };
+        rep.compare("emb.form", || json!({"directed": nats(&ob)}), &imp, &m.ask(&format!("emb 1 {}", nats(&ob))));
+        if ob != gb {
+            let class = if emb_change(&ob, &gb) == "nan_zeroed" { "tensor_store.embedding_slab.snapshot/short_vector_nan_zeroed" } else { "tensor_store.embedding_slab.snapshot/short_vector_small_entries_zeroed" };
+            seen.violation(rep, class, "CompressedEmbedding::from_dense(v).to_dense() differs from v", json!({"vector_bits": nats(&ob), "restored_bits": nats(&gb)}));
+        }
+        rep.case("directed", Some(&format!("emb|{}", nats(&ob))));
+    }
+}
+
 // ------------------------------------------------------------------ stream: crafted / damaged files vs the model's routing
 
 fn stream_route(rep: &mut Report, m: &mut Model, root: &Rng, scale: u64, sc: &mut Scratch) {
@@ -1603,7 +1759,7 @@ fn stream_crash(rep: &mut Report, m: &mut Model, root: &Rng, thorough: bool, sc:
     for (ci, c) in cases.iter().enumerate() {
         let path = sc.fresh(c.name);
         let dir = path.parent().unwrap().to_path_buf();
-        let tmp_path = if fixed() { PathBuf::from(format!("{}.tmp", path.to_string_lossy())) } else { path.with_extension("tmp") };
+        let tmp_path = snapshot::temp_path_for(&path);
         let tmp_name = tmp_path.file_name().unwrap().to_string_lossy().to_string();
         let same = tmp_path == path;
         let (seed_old, seed_new) = (r.next_u64(), r.next_u64());
@@ -1623,9 +1779,9 @@ fn stream_crash(rep: &mut Report, m: &mut Model, root: &Rng, thorough: bool, sc:
                 let n = std::fs::read(&path).unwrap().len();
                 let t = if same { c.name.to_string() } else { tmp_name.clone() };
                 if c.mode == "quant" {
-                    vec![Op::Create(t.clone()), Op::Write(t.clone(), n), Op::Rename(t, c.name.to_string())]
+                    vec![Op::Create(t.clone()), Op::Write(t.clone(), n), Op::Fsync(t.clone()), Op::Rename(t, c.name.to_string())]
                 } else {
-                    vec![Op::Create(t.clone()), Op::Write(t.clone(), 20), Op::Write(t.clone(), n - 20), Op::Rename(t, c.name.to_string())]
+                    vec![Op::Create(t.clone()), Op::Write(t.clone(), 20), Op::Write(t.clone(), n - 20), Op::Fsync(t.clone()), Op::Rename(t, c.name.to_string())]
                 }
             }
         };
@@ -1637,7 +1793,7 @@ fn stream_crash(rep: &mut Report, m: &mut Model, root: &Rng, thorough: bool, sc:
         // 1. the real operation sequence is the model's
         let quant = u8::from(c.mode == "quant");
         let (hl, bl) = if c.mode == "quant" { (0, new_bytes.len()) } else { (20, new_bytes.len() - 20) };
-        let model_ops = m.ask(&format!("ops {quant} {} {hl} {bl}", u8::from(fixed())));
+        let model_ops = m.ask(&format!("ops {quant} {hl} {bl}"));
         let real_ops = op_text(&ops).replace(&tmp_name, "tmp").replace(c.name, if same { "tmp" } else { "path" });
         let model_ops_cmp = if same { model_ops.replace("path", "tmp") } else { model_ops.clone() };
         rep.compare("crash.ops", || json!({"mode": c.mode, "name": c.name, "strace": strace_ok}), &real_ops, &model_ops_cmp);
@@ -1647,18 +1803,17 @@ fn stream_crash(rep: &mut Report, m: &mut Model, root: &Rng, thorough: bool, sc:
         }
         let rename_at = ops.iter().position(|o| matches!(o, Op::Rename(..)));
         let fsync_before = rename_at.map(|k| ops[..k].iter().any(|o| matches!(o, Op::Fsync(_)))).unwrap_or(false);
-        if !fsync_before {
+        if fsync_before {
+            rep.hit("crash.fsync_before_rename");
+        } else {
             rep.hit("crash.no_fsync_before_rename");
-            if ci < 3 {
-                rep.observe(json!({"what":"save renames the temp file over the snapshot without fsync (file or directory): after a power loss the path may hold a torn file. Outside C07's stated crash model; Lean: save_power_loss_witness / save_fsync_power_loss_atomic","mode": c.mode, "trace": op_text(&ops)}));
-            }
+            seen.violation(rep, "tensor_store.snapshot.save/no_fsync_before_rename", "save renames the temp file over the snapshot without sync_all: after a power loss the path may hold a torn file (Lean: save_power_loss_witness)", json!({"mode": c.mode, "trace": op_text(&ops)}));
         }
         // 2. crash states
         let mut fs0 = SimFs::new();
         fs0.insert(c.name.to_string(), SimFile { synced: old_bytes.clone(), pending: vec![] });
         let total = count_crash_states(&ops);
-        let fsf = u8::from(fixed());
-        let model_total = m.ask(&format!("crash_count {} 1 {fsf} {quant} {hl} {bl}", u8::from(same)));
+        let model_total = m.ask(&format!("crash_count {} 1 {quant} {hl} {bl}", u8::from(same)));
         if bl <= 3000 {
             rep.compare("crash.count", || json!({"mode": c.mode}), &total.to_string(), &model_total);
         }
@@ -1681,7 +1836,7 @@ fn stream_crash(rep: &mut Report, m: &mut Model, root: &Rng, thorough: bool, sc:
             let Some(st) = nth_crash_state(&ops, &new_bytes, &fs0, i) else { continue };
             let d = describe(&st, c.name, if same { c.name } else { &tmp_name }, Some(&old_bytes), &new_bytes);
             if bl <= 3000 {
-                let md = m.ask(&format!("crash_at {} 1 {fsf} {quant} {hl} {bl} {i}", u8::from(same)));
+                let md = m.ask(&format!("crash_at {} 1 {quant} {hl} {bl} {i}", u8::from(same)));
                 rep.compare("crash.state", || json!({"mode": c.mode, "name": c.name, "index": i}), &d, &md);
             }
             // materialise and run the real load
@@ -1707,6 +1862,26 @@ fn stream_crash(rep: &mut Report, m: &mut Model, root: &Rng, thorough: bool, sc:
                 }
             }
             let _ = std::fs::remove_dir_all(cd.parent().unwrap());
+            // power loss on top of the crash state: the un-synced bytes of the path's file cut at any byte
+            // (Lean: save_fsync_power_loss_atomic — with sync_all before the rename nothing at the path is un-synced)
+            match st.get(c.name) {
+                Some(f) if !f.pending.is_empty() => {
+                    for k in [0usize, f.pending.len() / 2] {
+                        let pd = sc.fresh(c.name);
+                        let mut bytes = f.synced.clone();
+                        bytes.extend_from_slice(&f.pending[..k]);
+                        std::fs::write(&pd, &bytes).unwrap();
+                        let got = load_kv(c.mode, &pd);
+                        let ok = got.is_ok() && (got == old_kv || got == new_kv);
+                        rep.hit(&format!("crash.powerloss.{}", if ok { "old_or_new" } else { "torn" }));
+                        if !ok {
+                            seen.violation(rep, "tensor_store.snapshot.save/power_loss_state_neither_old_nor_new", "un-synced bytes at the snapshot path: a power loss in this crash state leaves a file that loads as neither the previous nor the new snapshot", json!({"mode": c.mode, "path_name": c.name, "crash_state": d, "index": i, "surviving_bytes": bytes.len()}));
+                        }
+                        let _ = std::fs::remove_dir_all(pd.parent().unwrap());
+                    }
+                }
+                _ => rep.hit("crash.powerloss.path_fully_synced"),
+            }
             rep.case("crash", Some(&format!("{}|{}|{i}", c.mode, c.name)));
         }
         if torn_loads > 0 {
@@ -1725,9 +1900,6 @@ fn main() {
         child_save(&e[1], &e[2], e[3].parse().unwrap_or(1), e[4].parse().unwrap_or(1));
         return;
     }
-    if args.extra.windows(2).any(|w| w[0] == "--variant" && w[1] == "fixed") {
-        FIXED.store(true, std::sync::atomic::Ordering::Relaxed);
-    }
     let mut rep = Report::new(
         "seeded generation of stores / values / damaged files / crash points; a case is non-trivial when it \
          carries content (>= 4 header bytes, a non-empty value, a store with entries, a crash point inside the save); \
@@ -1737,6 +1909,7 @@ fn main() {
     let root = Rng::new(args.seed);
     let scale: u64 = if args.thorough { 10 } else { 1 };
     let mut sc = Scratch::new();
+    stream_directed(&mut rep, &mut m, &mut sc);
     stream_names(&mut rep, &mut m, &root, scale);
     stream_detect(&mut rep, &mut m, &root, scale, &mut sc);
     stream_emb(&mut rep, &mut m, &root, scale);
@@ -1747,6 +1920,6 @@ fn main() {
     stream_route(&mut rep, &mut m, &root, scale, &mut sc);
     stream_crash(&mut rep, &mut m, &root, args.thorough, &mut sc);
     rep.note("bitcode, zstd and the tensor-train kernels are opaque: the model frames and routes their bytes, the harness checks their round-trip and their rejection of truncated input on the real crates");
-    rep.note("crash model of the property: any prefix of the save's file operations, the write in flight cut at any byte, rename atomic; power loss without fsync is reported as an observation");
+    rep.note("crash model of the property: any prefix of the save's file operations (create temp, write header, write body, sync_all, rename), the write in flight cut at any byte, rename atomic; on top of each crash state, power loss = un-synced bytes of the path's file cut at any byte (none exist with sync_all before the rename); durability of the directory entry is not modelled");
     rep.write(&args.out);
 }
